@@ -10,11 +10,6 @@ def parseOp (s : String) : Option Op :=
   | ["i", h] => do some (.insert (← bytes? h))
   | _ => none
 
-def showRs : RsOutcome → String
-  | .ok a out => s!"ok {a} {hex out}"
-  | .err a => s!"err {a}"
-  | .panic => "panic"
-
 def handle (op : String) (args : List String) : Option String :=
   match op, args with
   | "c03.encsize", [n] => some <| match nat? n with
@@ -30,8 +25,8 @@ def handle (op : String) (args : List String) : Option String :=
       | _, _ => "bad-arg"
   | "c03.apply", [b, d] => some <| match bytes? b, bytes? d with
       | some b, some d => showExcept (applyDelta b d) | _, _ => "bad-arg"
-  | "c03.applyrs", [dbg, b, d] => some <| match bool? dbg, bytes? b, bytes? d with
-      | some dbg, some b, some d => showRs (applyDeltaRs dbg b d) | _, _, _ => "bad-arg"
+  | "c03.applyrs", [b, d] => some <| match bytes? b, bytes? d with
+      | some b, some d => showExcept (applyDeltaRs b d) | _, _ => "bad-arg"
   | _, _ => none
 
 end DriverC03
